@@ -350,10 +350,10 @@ def document_single_file(file, root, settings: Settings):
     # by removing extension
 
     if not settings.rst.file_extensions_in_titles:
-        header_name = re.sub(r"\.cmake$", "", header_name)
+        header_name = re.sub(r"\.cmake$", "", header_name, flags=re.IGNORECASE)
 
     if not settings.rst.file_extensions_in_modules:
-        module_name = re.sub(r"\.cmake$", "", module_name)
+        module_name = re.sub(r"\.cmake$", "", module_name, flags=re.IGNORECASE)
 
     # Only log when not writing to stdout
     if output_path is not None:
